@@ -304,12 +304,7 @@ func DecodeEntryFrom(r io.Reader) (*Entry, uint32, error) {
 	entry.Meta = header.Meta
 	entry.ExpiresAt = header.ExpiresAt
 
-	if cap(entry.Key) < keyLen {
-		entry.Key = make([]byte, keyLen)
-	} else {
-		entry.Key = entry.Key[:keyLen]
-	}
-	if _, err := io.ReadFull(hashReader, entry.Key); err != nil {
+	if entry.Key, err = ReadBounded(hashReader, entry.Key, keyLen); err != nil {
 		entry.DecrRef()
 		if errors.Is(err, io.EOF) || errors.Is(err, io.ErrUnexpectedEOF) {
 			return nil, 0, ErrPartialEntry
@@ -317,12 +312,7 @@ func DecodeEntryFrom(r io.Reader) (*Entry, uint32, error) {
 		return nil, 0, err
 	}
 
-	if cap(entry.Value) < valueLen {
-		entry.Value = make([]byte, valueLen)
-	} else {
-		entry.Value = entry.Value[:valueLen]
-	}
-	if _, err := io.ReadFull(hashReader, entry.Value); err != nil {
+	if entry.Value, err = ReadBounded(hashReader, entry.Value, valueLen); err != nil {
 		entry.DecrRef()
 		if errors.Is(err, io.EOF) || errors.Is(err, io.ErrUnexpectedEOF) {
 			return nil, 0, ErrPartialEntry
@@ -345,6 +335,34 @@ func DecodeEntryFrom(r io.Reader) (*Entry, uint32, error) {
 
 	recordLen := uint32(headerBytes) + uint32(keyLen) + uint32(valueLen) + crc32.Size
 	return entry, recordLen, nil
+}
+
+// maxPrealloc bounds what a decoder allocates on the word of a length field it has not yet
+// validated against the bytes actually present in the stream.
+const maxPrealloc = 1 << 20
+
+// ReadBounded reads exactly n bytes from r into dst (reusing its capacity) and returns the
+// filled slice. For n above maxPrealloc the buffer grows only as bytes actually arrive, so a
+// corrupt length field cannot force an allocation out of proportion to the input. A short
+// stream yields io.ErrUnexpectedEOF (io.EOF if nothing at all was read), like io.ReadFull.
+func ReadBounded(r io.Reader, dst []byte, n int) ([]byte, error) {
+	if n <= maxPrealloc || cap(dst) >= n {
+		if cap(dst) < n {
+			dst = make([]byte, n)
+		} else {
+			dst = dst[:n]
+		}
+		_, err := io.ReadFull(r, dst)
+		return dst, err
+	}
+	buf := bytes.NewBuffer(make([]byte, 0, maxPrealloc))
+	if _, err := io.CopyN(buf, r, int64(n)); err != nil {
+		if err == io.EOF && buf.Len() > 0 {
+			err = io.ErrUnexpectedEOF
+		}
+		return dst[:0], err
+	}
+	return buf.Bytes(), nil
 }
 
 // EstimateEncodeSize estimates the encoded size of an entry in the WAL/value log.
